@@ -943,7 +943,7 @@ var Prop = &harness.Prop{
 		}
 		u = append(u, gmReconnectUnit(cbc, rdepth), gmReconnectUnit(gcm, rdepth))
 		for _, capacity := range []int{1, 2} {
-			u = append(u, reconnectUnit(0x0303, capacity, rdepth), reconnectUnit(0x0301, capacity, rdepth-1))
+			u = append(u, reconnectUnit(0x0303, capacity, rdepth), reconnectUnit(0x0301, capacity, rdepth-1), reconnectUnit(0, capacity, rdepth-1))
 		}
 		u = append(u, bigCertUnit(true), bigCertUnit(false), cloneFieldsUnit())
 		u = append(u, serverChainUnit(true, 0), serverChainUnit(false, 0x0301), serverChainUnit(false, 0x0303))
